@@ -35,7 +35,7 @@
 From stdpp Require Import gmap.
 From Verif.Common Require Import Sync.
 From Verif.C02 Require Import Model Spec.
-From Verif.C01 Require Import Model Spec Compose Instances Passthru L3Reflag L3Meets RoutesPools Fanin Refines Graph Dispatch RuleScanner GraphExample Slices Vxlan VxlanSlice.
+From Verif.C01 Require Import Model Spec Compose Instances Passthru L3Reflag L3Meets RoutesPools Fanin Refines Graph Dispatch RuleScanner GraphExample Slices Vxlan VxlanSlice VtepPipe.
 From Verif.C01 Require InstC04 InstC07 NodeC07 NodeC04 NodeC03 NodeC05 NodeC43.
 
 (* --- the graph model: a synchronous producer->consumer composition runs the consumer on everything the producer emitted *)
@@ -213,7 +213,8 @@ Qed.
                    C43's conclusion leaves pure pool-CIDR routes and nodes' own /32s unspecified: the emitter must not
                    depend on them (hypothesis of c01_slice_l3)
      other slice   = VTEP slice + rest (c01_other_slice_split).  VXLANResolver (IPv4+IPv6): node AND emitter PROVED
-                   (Vxlan.v, VxlanSlice.v: c01_vxlan_table_exact, c01_slice_vxlan - only its feeder is assumed), and the model
+                   (Vxlan.v, VxlanSlice.v: c01_vxlan_table_exact, c01_slice_vxlan), its feeder is proved for the
+                   slice's own datastore keys (VtepPipe.v: c01_history_independent_vteps, closed), and the model
                    is in the correspondence run (VX cases).  EncapsulationResolver: ASSUMED (no model; its Encapsulation
                    message is compared history-vs-fresh by the run).  DataplanePassthru (pools, host metadata, wireguard)
                    and ProfileDecoder (service accounts, namespaces): the generic passthru is PROVED (c01_passthru_hf)
@@ -351,6 +352,15 @@ Theorem c01_slice_vxlan : forall (gen : N -> bool -> N) (enc : vtep -> N) (X : s
      (vt_world enc ∘ vt_table gen ∘ G).
 Proof. exact vxlan_slice_hf. Qed.
 Print Assumptions c01_slice_vxlan.
+
+(* tunnel endpoints CLOSED end to end (VtepPipe.v): datastore (Node resources + VXLAN host config keys of both families)
+   -> feeder (dispatch + abstraction, proved a message-by-message homomorphism) -> VXLAN resolver -> emitter -> sequencer,
+   with the flusher; the contract is proved; no hypothesis about the graph is left *)
+Theorem c01_history_independent_vteps : forall (gen : N -> bool -> N) (enc : vtep -> N) h D e,
+  vadmitted h -> settled h -> (net (DS vkey vval) h).1 = D -> NoDup e.*1 -> list_to_map e = D ->
+  dp_of (n_outs (vgraph gen enc) h) = dp_of (n_outs (vgraph gen enc) (fresh e)).
+Proof. exact vtep_history_independent. Qed.
+Print Assumptions c01_history_independent_vteps.
 
 Theorem c01_other_slice_split : forall (X : stype) (s_vtep s_rest : node (s_msg X) sev) (P : _ -> Prop) F_vtep F_rest,
   hf (Y := CB) s_vtep P (Forall (in_class (kclass [KVtep]))) F_vtep ->
